@@ -43,12 +43,7 @@ theorem decModIsZero_noassert (a b : Dec) : decModIsZero a b ≠ .error .asserti
 
 theorem modIsZero_noassert (v f : PyVal) : modIsZero v f ≠ .error .assertion := by
   unfold modIsZero
-  split <;> try simp
-  · exact decModIsZero_noassert _ _
-  · split <;> simp
-  · split <;> try simp
-    split <;> try simp
-    split <;> simp
+  repeat' (first | exact decModIsZero_noassert _ _ | (simp; done) | split)
 
 theorem lenCmp_noassert (x : PyVal) (f : Int → Bool) : lenCmp x f ≠ .error .assertion := by
   unfold lenCmp; split <;> simp
